@@ -38,7 +38,7 @@ func e2eLiveComponent(r *hx.Run) {
 	if r.Tier == "thorough" {
 		runs = 16
 	}
-	for it := 0; it < runs; it++ {
+	for it := 0; it <= runs; it++ {
 		ones := 28 + rng.Intn(2)
 		n := 1 << uint(32-ones)
 		base := labNet | uint32(n*(2+rng.Intn(200/n)))
@@ -47,6 +47,12 @@ func e2eLiveComponent(r *hx.Run) {
 		withExcl := it%4 >= 2
 		withRate := it%4 == 1 || rng.Intn(4) == 0
 		answering := it%3 != 0
+		big := it == runs
+		if big {
+			// more addresses than the packet pipeline of a one-CPU process holds at a time, sent slowly: a pass that lasts
+			// several rescan times, and is still whole
+			ones, n, base, oneCPU, withExcl, withRate, answering = 22, 1024, labNet&^1023, true, false, false, false
+		}
 		args := []string{"arp", "--live", fmt.Sprintf("%dms", rescan)}
 		if rng.Intn(2) == 0 {
 			args = append(args, "--json")
@@ -66,6 +72,9 @@ func e2eLiveComponent(r *hx.Run) {
 			// 400/s: a pass is over in a blink; 60/s: a pass takes longer than the rescan time itself (and is still whole)
 			args = append(args, "--rate", []string{"400/s", "60/s"}[rng.Intn(2)])
 		}
+		if big {
+			args = append(args, "--rate", "2500/s")
+		}
 		args = append(args, fmt.Sprintf("%s/%d", v4Text(base), ones))
 		lab.settle(30 * time.Millisecond)
 		lab.take()
@@ -78,6 +87,9 @@ func e2eLiveComponent(r *hx.Run) {
 		stop := time.Now().Add(time.Duration(passes)*time.Duration(rescan+40)*time.Millisecond + 400*time.Millisecond)
 		if withRate {
 			stop = stop.Add(time.Duration(passes) * 270 * time.Millisecond)
+		}
+		if big {
+			stop = time.Now().Add(time.Duration(4*(410+rescan)) * time.Millisecond)
 		}
 		for !p.exited() && time.Now().Before(stop) {
 			fs := lab.since(from)
@@ -148,10 +160,10 @@ func e2eLiveComponent(r *hx.Run) {
 		// pass has been taken); with --rate the frames of that pass are still queued behind the limiter then, so the pause
 		// seen on the wire is shorter by the time the queue takes to drain: no gap is demanded of rate-limited runs
 		gapMs := rescan
-		if withRate {
+		if withRate || big {
 			gapMs = 0
 		}
-		r.Case(fmt.Sprintf("cpus=%s/excl=%v/rate=%v/answering=%v", cpus, withExcl, withRate, answering), "e2elive",
+		r.Case(fmt.Sprintf("cpus=%s/excl=%v/rate=%v/answering=%v/big=%v", cpus, withExcl, withRate, answering, big), "e2elive",
 			cmdText(args), fmt.Sprint(m), fmt.Sprint(gapMs), obs)
 	}
 	_ = strings.TrimSpace
